@@ -3,6 +3,7 @@
 package plugin
 
 import (
+	"go.flow.arcalot.io/deployer"
 	"go.flow.arcalot.io/engine/internal/step"
 	"go.flow.arcalot.io/engine/internal/verifrt"
 )
@@ -132,4 +133,74 @@ func VerifH_C12_plugin_any_order() {
 		verifAct(e, r, given, verifrt.Choice("action", 4))
 	}
 	verifEpilogue(e, r, false)
+}
+
+// C05: the temporary deployment made to read a plugin's schema is closed on every return path.
+func VerifH_C05_load_schema() {
+	e := verifNewEnv(true)
+	e.deployModes = 2 // ok / error (a deployer that blocks for ever is outside LoadSchema's contract)
+	e.closeFaults = true
+	p := &pluginProvider{logger: vLogger{}, localDeployers: map[deployer.DeploymentType]deployer.Connector{"builtin": &vConnector{env: e}}}
+	rs, err := p.LoadSchema(map[string]any{"plugin": map[string]any{"src": "image", "deployment_type": "builtin"}}, nil)
+	verifrt.Assert((rs == nil) != (err == nil), "LoadSchema returns a runnable step or an error")
+	if e.deployments > 0 {
+		verifrt.Reach("deployed")
+	}
+	if err != nil {
+		verifrt.Reach("error")
+	}
+	for _, pl := range e.plugins {
+		verifrt.Assert(pl.closes >= 1, "the deployment made to read the schema is closed on every return path")
+	}
+	verifrt.Settle()
+	verifrt.Assert(verifrt.LiveGoroutines() == 0, "no goroutine survives LoadSchema")
+}
+
+// C06 (provider side): closing a running step ends within its closure timeout, and every plugin
+// still executing is sent the cancel signal or has its connection closed.
+func VerifH_C06_close_running() {
+	e := verifNewEnv(verifrt.Choice("hasCancel", 2) == 1)
+	e.lazy = false
+	e.execMode = 1 // keeps running until signalled or closed
+	if verifrt.Choice("plugin-reacts", 2) == 0 {
+		e.ignoreSignal = true
+	}
+	r := verifStart(e)
+	given := map[string]bool{}
+	verifAct(e, r, given, 0)
+	verifAct(e, r, given, 1)
+	timeout := int64(5000)
+	in := map[string]any{"input": any(verifrt.NondetVal("in"))}
+	if verifrt.Choice("timeout", 2) == 1 {
+		in["closure_wait_timeout"] = int64(0)
+		timeout = 0
+	}
+	verifrt.Assert(r.ProvideStageInput("starting", in) == nil, "starting input accepted")
+	verifrt.Settle()
+	if e.execLive == 1 {
+		verifrt.Reach("executing")
+	}
+	wasLive := e.execLive
+	t0 := verifrt.Now()
+	how := verifrt.Choice("how", 3)
+	switch how {
+	case 0:
+		verifrt.Assert(r.ForceClose() == nil, "ForceClose returns no error")
+	case 1:
+		verifrt.Assert(r.Close() == nil, "Close returns no error")
+	case 2:
+		verifrt.Assert(r.ProvideStageInput("cancelled", map[string]any{"stop_if": true}) == nil, "stop_if accepted")
+		verifrt.AwaitQuiescence()
+	}
+	dt := (verifrt.Now() - t0) / 1000000
+	verifrt.Assert(dt <= timeout, "a running step stops within its closure timeout after cancellation")
+	verifrt.Assert(e.execLive == 0, "no plugin execution is left running after cancellation")
+	if wasLive == 1 {
+		verifrt.Assert(e.signalled == 1 || e.plugins[0].closes >= 1, "a plugin that was executing got the cancel signal or had its connection closed")
+		if e.hasCancel && how != 0 {
+			verifrt.Reach("signalled")
+		}
+	}
+	e.h.closeReturned = how != 2
+	verifEpilogue(e, r, how != 2)
 }
